@@ -88,6 +88,10 @@ CHECKS = {
          'Bounded exhaustive verification (enumerative mode): every argv of the grammar ends in exactly one of: a complete formula accepted by the strict reader of the chosen format with exit 0, a help text, or a non-zero exit with empty stdout and comment-prefixed stderr; any escaping exception is reported with its argv.',
          'Trusted: strict readers of C06/C12, stubs for stdio/SIGINT/virtual files, CrossHair accounting. Outside: argv outside the grammar.',
          'DESIGN.md section 3 C18'),
+ 'C19': ('CrossHair/z3-accounted exhaustive walk of (small input CNF, transformation, optional second transformation) with before/after snapshots and aliasing tests; CrossHair symbolic execution of the constraint builders for argument immutability (unbounded constant)',
+         'Bounded verification: every transformation of the list applied to the small-CNF set leaves its input untouched, returns a fresh formula and records provenance; the builders never modify their argument for any integer constant (Confirmed over all paths).',
+         'Trusted: snapshot = public views + DIMACS text; CrossHair models of list/tuple. Outside: larger formulas, longer chains.',
+         'DESIGN.md section 3 C19'),
 }
 NA = {}
 
